@@ -46,3 +46,21 @@ Proof.
   - apply Qle_shift_div_l; [exact Hd | lra].
   - apply Qle_shift_div_r; [exact Hd | lra].
 Qed.
+
+(* irregular data: every standardised point of every observation lies in [0, 1] when the object's range is not a point *)
+Theorem norm_irr_range : forall obs, gmin obs < gmax obs ->
+  Forall (Forall (fun v => 0 <= v /\ v <= 1)) (norm_irr obs).
+Proof.
+  intros obs Hlt. unfold norm_irr. apply Forall_forall. intros ys Hys.
+  apply in_map_iff in Hys. destruct Hys as (xs & <- & Hxs).
+  unfold norm_with. destruct (Qeq_bool (gmin obs) (gmax obs)) eqn:E.
+  - apply Qeq_bool_iff in E. lra.
+  - apply Forall_forall. intros v Hv. apply in_map_iff in Hv. destruct Hv as (x & <- & Hx).
+    assert (Hin : In x (concat obs)) by (apply in_concat; exists xs; split; assumption).
+    pose proof (qmin_list_le _ x Hin) as Hlo. pose proof (qmax_list_ge _ x Hin) as Hhi.
+    unfold gmin, gmax in *. set (mn := qmin_list (concat obs)) in *. set (mx := qmax_list (concat obs)) in *.
+    assert (Hd : 0 < mx - mn) by lra.
+    rewrite Qred_correct. split.
+    + apply Qle_shift_div_l; [exact Hd | lra].
+    + apply Qle_shift_div_r; [exact Hd | lra].
+Qed.
